@@ -32,6 +32,9 @@ def base_scenarios(rng, n):
         if rng.random() < 0.3:
             s['steps'][0]['argv'] = ['--home-fallback'] + s['steps'][0]['argv']
             s['steps'][0]['env'] = {'TRASH_ENABLE_HOME_FALLBACK': '1'}
+        if rng.random() < 0.3:
+            # -f forgives an argument that does not exist; it forgives no error met while trashing one that does
+            s['steps'][0]['argv'] = [rng.choice(['-f', '-f', '-fv'])] + s['steps'][0]['argv']
         out.append((s, m))
     return out
 
